@@ -24,7 +24,7 @@ META = {
         "position; half of the trees whose root is a __type__ mapping are translated with extra construct keywords "
         "(as the pipeline translator passes target=...), which only the root element may receive; half of those get a second failing element nested inside the first (the inner one must be reported); mapping keys "
         "that are not strings (ints, floats, booleans, null); a quarter of the valid trees hold one container object at two positions (what a YAML alias "
-        "produces): every position must be constructed on its own; optional non-empty root location. Non-trivial = at least two __type__ nodes; "
+        "produces): every position must be constructed on its own; 5 % of the cases are lists with two items that compare equal (1 == True == 1.0) of which only the later one fails; optional non-empty root location. Non-trivial = at least two __type__ nodes; "
         "distinct by content."
     ),
     "assumptions": [
@@ -105,7 +105,32 @@ def type_nodes(tree, path=""):
     return found
 
 
+def gen_equal_items(rnd):
+    """A list holding two items that compare equal (1 == True == 1.0) of which only the later one fails."""
+    n = rnd.randint(2, 5)
+    j = rnd.randint(1, n - 1)
+    i = rnd.randint(0, j - 1)
+    wrap = rnd.choice(["bare", "bare", "list", "dict"])
+
+    def twin(x):
+        node = {"__type__": "vfact.intonly", "x": x, "nid": 900}
+        return {"bare": node, "list": [node], "dict": {"k": node}}[wrap]
+
+    items = [rnd.choice([0, "text", None, [2], {"a": 3}, {"__type__": "vfact.make", "nid": 100 + k}]) for k in range(n)]
+    items[i] = twin(1)
+    items[j] = twin(rnd.choice([True, 1.0]))
+    host = rnd.choice(["root", "key", "args", "nested"])
+    tree, path = {"root": (items, ""), "key": ({"items": items, "other": 1}, ".items"),
+                  "args": ({"__type__": "vfact.make", "nid": 99, "__args__": [0, items]}, ".__args__[1]"),
+                  "nested": ([["x"], items], "[1]")}[host]
+    where = rnd.choice(["", "", "cfg", ".pipeline[2]"])
+    expect = where + path + "[%d]" % j + {"bare": "", "list": "[0]", "dict": ".k"}[wrap]
+    return {"tree": tree, "equal_items": {"expect": expect, "i": i, "j": j}, "where": where, "fail": None, "purge": False, "share": None, "extra": None}
+
+
 def gen_case(rnd, spec):
+    if rnd.random() < 0.05:
+        return gen_equal_items(rnd)
     counter = [0]
     density = rnd.choice([0.0, 0.15, 0.3, 0.45, 0.6])
     max_depth = rnd.choice([2, 3, 4, 5, 7])
@@ -229,6 +254,20 @@ def execute(case, result):
         result.count("cases_with_fresh_imports")
     faclog.reset()
     tree, fail = case["tree"], case["fail"]
+    if case.get("equal_items"):
+        # only the later of two items that compare equal fails: its index, not the first equal item's, locates the error
+        result.count("lists_with_equal_items_of_which_the_later_fails")
+        kwargs = {"where": case["where"]} if case["where"] else {}
+        try:
+            Translator().translate_hierarchy(tree, **kwargs)
+        except ConfigurationError as e:
+            if e.where != case["equal_items"]["expect"]:
+                return [("the failing item (equal to, but not the same as, item %d of its list) is at %r, error reports %r"
+                         % (case["equal_items"]["i"], case["equal_items"]["expect"], e.where), None)]
+            return []
+        except Exception as e:
+            return [("translate_hierarchy raised %r instead of a ConfigurationError" % (e,), None)]
+        return [("tree with a failing item at %r was accepted" % case["equal_items"]["expect"], None)]
     if case.get("share"):
         import copy
 
@@ -389,7 +428,7 @@ def run_shard(spec):
 
 
 def finish(total, tier):
-    needed = ["valid_trees", "failing_trees", "failing_trees_with_nested_second_failure", "nodes_constructed", "order_constraints_checked", "cases_with_fresh_imports",
+    needed = ["valid_trees", "failing_trees", "lists_with_equal_items_of_which_the_later_fails", "failing_trees_with_nested_second_failure", "nodes_constructed", "order_constraints_checked", "cases_with_fresh_imports",
               "translations_with_extra_construct_keywords",
               "trees_with_shared_container", "shared_type_nodes_checked"]
     needed += ["failing_" + k for k in FAILURES]
